@@ -5,7 +5,7 @@
    [shape q]     : q is the rendering of a toks_ok token list (decided by running the scanner);
    [tokenize q]  : that token list (segments between consecutive cut positions);
    [agree q]     : shape q and ^q$ valid  imply  render (tokenize q) = q, toks_ok, and every token parses in isolation. *)
-Require Import RIO.Base RIO.Prefix RIO.Tree RIO.TreeProofs RIO.TreeInst RIO.Rx RIO.RxToks RIO.RxGi.
+Require Import RIO.Base RIO.Prefix RIO.Tree RIO.TreeProofs RIO.TreeInst RIO.Rx RIO.RxParse RIO.RxToks RIO.RxGi.
 Close Scope N_scope.
 Open Scope nat_scope.
 
@@ -48,13 +48,65 @@ Fixpoint no_prop (q : list N) : bool :=
   | a :: (b :: _) as t => negb (N.eqb a 92 && (N.eqb b 112 || N.eqb b 80)) && no_prop t
   | _ => true
   end.
-(* CONJECTURE (open; only bounded evidence below):
-     forall ic ts k s, toks_ok ts -> no_prop (render ts) = true ->
+(* no two consecutive minus signs (the set-difference operator of the regex crate, which RIO.Rx does not implement:
+   it reads  x--[  as an item followed by the range from '-' to '[') *)
+Fixpoint no_dd (q : list N) : bool :=
+  match q with
+  | a :: (b :: _) as t => negb (N.eqb a 45 && N.eqb b 45) && no_dd t
+  | _ => true
+  end.
+
+(* REFUTED: the reduction lemma and the full law under [no_prop] alone.  q = x([(----[])|(]]) : for the scanner (and
+   for the regex crate: `--` is set difference and the bracket after it opens a nested class) the literal x and ONE
+   group holding one class; for the parser of RIO.Rx the class is  (..-  -..[  and ends at the first closing bracket,
+   so q is an alternation at top level.  An artefact of RIO.Rx (no set operators, no nested classes), not of the
+   library: regex 1.13.1 compiles ^q$ with the same structure as the scanner. *)
+Definition w3_ts : list tok := [TLit 120%N; TGrp [91;40;45;45;45;45;91;93;41;124;40;93;93]%N].
+Definition w3_s : list N := [122;122;93;93]%N.
+Lemma w3_facts : forallb tok_ok w3_ts = true /\ no_prop (render w3_ts) = true /\ rx_valid false (leaf_regex (render w3_ts)) = true
+  /\ forallb tok_parses w3_ts = false
+  /\ ML rx_is_match false (render w3_ts) w3_s = true /\ MN rx_is_match false (render (firstn 1 w3_ts)) w3_s = false
+  /\ no_dd (render w3_ts) = false.
+Proof. repeat split; vm_compute; reflexivity. Qed.
+Theorem reduction_lemma_no_prop_refuted :
+  ~ (forall ts, toks_ok ts -> no_prop (render ts) = true -> rx_valid false (leaf_regex (render ts)) = true -> forallb tok_parses ts = true).
+Proof. intros H. destruct w3_facts as (H1 & H2 & H3 & H4 & _). rewrite (H w3_ts H1 H2 H3) in H4. discriminate. Qed.
+Theorem full_law_no_prop_refuted :
+  ~ (forall ic ts k s, toks_ok ts -> no_prop (render ts) = true ->
+       ML rx_is_match ic (render ts) s = true -> MN rx_is_match ic (render (firstn k ts)) s = true).
+Proof. intros H. destruct w3_facts as (H1 & H2 & _ & _ & H5 & H6 & _). rewrite (H false w3_ts 1 w3_s H1 H2 H5) in H6. discriminate. Qed.
+
+(* CONJECTURE (open; bounded evidence below):
+     forall ic ts k s, toks_ok ts -> no_prop (render ts) = true -> no_dd (render ts) = true ->
        ML rx_is_match ic (render ts) s = true -> MN rx_is_match ic (render (firstn k ts)) s = true.
    By RIO.RxLaws.rx_prefix_law_toks and RIO.RxGi.toks_parse_forallb it is enough to prove
-     forall ts, toks_ok ts -> no_prop (render ts) = true -> rx_valid false (leaf_regex (render ts)) = true ->
-       forallb tok_parses ts = true,
-   which is what [agree] tests on every string of the bounded searches (their alphabets contain no p / P). *)
+     forall ts, toks_ok ts -> no_prop (render ts) = true -> no_dd (render ts) = true ->
+       rx_valid false (leaf_regex (render ts)) = true -> forallb tok_parses ts = true,
+   which is what [agree] tests on every string of the bounded searches (their alphabets contain no p / P; a
+   violation involving `--` needs more than 7 characters).  [agree_class] tests the heart of it: without `--`,
+   the scanner and the parser agree on where a bracket class ends. *)
+
+Fixpoint class_end (s : list N) (st : sc) (i : nat) : option nat :=
+  match s with
+  | [] => None
+  | c :: s' => let st' := sc_step st c in if Nat.eqb (cl st') 0 then Some (S i) else class_end s' st' (S i)
+  end.
+Definition agree_class (w : list N) : bool :=
+  if no_dd w then
+    let t := w ++ [93;93;93;93]%N in
+    match RxParse.atom_of (parse_alt 40) (parse_class 40) 91%N t 1 with
+    | Some (_, rest, _) =>
+        match class_end t (sc_step s1 91%N) 0 with Some n => Nat.eqb n (length t - length rest) | None => false end
+    | None => true
+    end
+  else true.
+Section SearchClass.
+Variable alphabet : list N.
+Fixpoint search_class (n : nat) (acc : list N) {struct n} : option (list N) :=
+  if agree_class (rev acc) then
+    match n with O => None | S n' => first_some (fun c => search_class n' (c :: acc)) alphabet end
+  else Some (rev acc).
+End SearchClass.
 
 Section Search.
 Variable alphabet : list N.
@@ -81,4 +133,8 @@ Example bounded_agreement_6 : search [40;41;91;93;45;94;92;97;124]%N 6 [] = None
 Proof. vm_compute. reflexivity. Qed.
 (* length <= 5 over the same alphabet plus  !  d  ?  :  (so that \d, ranges from '!' and (?: groups occur) *)
 Example bounded_agreement_5_wide : search [40;41;91;93;45;94;92;97;124;33;100;63;58]%N 5 [] = None.
+Proof. vm_compute. reflexivity. Qed.
+(* class contents of length <= 6 over  [ ] - ^ \ a ( !  without `--`: the scanner and the parser close the class at
+   the same character (length 7 was checked once, 29 s) *)
+Example bounded_class_agreement_6 : search_class [91;93;45;94;92;97;40;33]%N 6 [] = None.
 Proof. vm_compute. reflexivity. Qed.
